@@ -33,12 +33,19 @@ def gen_recording(rng):
     funs = ["VOL", "PWR", "INP", "ZONENAME", "SCENE1NAME", "INPNAMEHDMI1", "BASIC", "X=Y", "F"]
     vals = ["On", "-30.5", "Zoné ß", "a=b", "x:y", "", " ", '"q"', "tail,", 'tail"', "@foo", "@UNDEFINED", "@RESTRICTED", "Up", "1,5", "\\", "back\\slash", "tab\there", "nbsp ", " em"]
     lines = []
+    said = []
     for _ in range(rng.randrange(3, 40)):
         r = rng.random()
         s, f, v = rng.choice(subs), rng.choice(funs), rng.choice(vals)
+        if said and rng.random() < 0.35:
+            # a function going back to a value it had before (A, B, A): the last one counts
+            s, f, v = rng.choice(said)
+            if rng.random() < 0.5:
+                v = rng.choice(vals)
         body = None
         if r < 0.35:
             body = f"@{s}:{f}={v}"
+            said.append((s, f, v))
         elif r < 0.55:
             body = f"@{s}:{f}=?"
         elif r < 0.75:
@@ -121,6 +128,15 @@ def gen_session(rng, store, multi, related):
             out += [f"@{s}:{f}={v}", f"@{s}:{f}=?"]
             if rng.random() < 0.5:
                 out += [f"@{s}:{f}={v}", f"@{s}:{f}=?"]
+        elif r < 0.8:
+            # history dependence: a multi-value query, a PUT to one of its members, the same query again
+            g = rng.choice(list(multi) + ["INPNAME", "SCENENAME"])
+            cands = [(s, f) for (s, f) in keys if (f in multi.get(g, [])) or (g == "INPNAME" and s == "SYS" and f.startswith("INPNAME") and f != "INPNAME") or (g == "SCENENAME" and f.startswith("SCENE") and f.endswith("NAME") and f != "SCENENAME")]
+            cands = [(s, f) for (s, f) in cands if f not in related and f not in ("PWR", "VOL", "ZONEBVOL", "STRAIGHT", "DIRMODE", "PUREDIRMODE") and not store[s][f].startswith("@")]
+            if cands:
+                s, f = rng.choice(cands)
+                v = rng.choice(["On", "Off", "7", "New Name", "x y"])
+                out += [f"@{s}:{g}=?", f"@{s}:{f}={v}", f"@{s}:{g}=?", f"@{s}:{f}=?"]
         elif r < 0.85:
             s = rng.choice(subs + ["FOO"])
             out.append(f"@{s}:{rng.choice(['BASIC', 'METAINFO', 'RDSINFO', 'INPNAME', 'SCENENAME', 'DIRMODE', 'STRAIGHT'])}=?")
@@ -210,7 +226,7 @@ def run(chk: Check):
         se = {"rec": name, "kind": "recorded-keys", "lines": [f"@{s}:{f}=?".encode("utf-8") for (s, f), v in keys], "expect": keys}
         sessions.append(se)
     # (3) GET/PUT sequences
-    per = 100 if chk.tier == "quick" else 5000
+    per = 100 if chk.tier == "quick" else 1000
     for name in sorted(stores):
         for _ in range(per):
             sessions.append({"rec": name, "kind": "sequence", "lines": gen_session(rng, stores[name], multi, related)})
@@ -251,7 +267,7 @@ def run(chk: Check):
                     chk.obligation_broken(f"correspondence handler ({se['rec']}, {se['kind']})", why[:700])
 
     # (2) ingestion: generated recordings, real fill_from_file vs model ingest
-    n_gen = 240 if chk.tier == "quick" else 6000
+    n_gen = 240 if chk.tier == "quick" else 4000
     gens = []
     for _ in range(n_gen):
         text = gen_recording(rng)
